@@ -990,6 +990,12 @@ func (ex *Executor) finishUnit(st *State, fr *Frame, res []Val, ins ssa.Instruct
 	for i, c := range spec.Ensures {
 		v, err := ex.evalSpec(c.Expr, env)
 		if err != nil {
+			if nm := unknownIdent(err.Error()); nm != "" && fr.fn.Parent() != nil && !ownSourceName(fr.fn, nm) && hasSourceName(fr.fn.Parent(), nm) {
+				// the postcondition relates the function literal's effect to a variable of the enclosing function that
+				// the literal no longer uses at all (it is not captured any more): it cannot establish that relation
+				ex.addStructural(st, "post", clauseLabel(c, i), false, "ensures "+c.Text+": the function literal no longer uses "+nm+" of the enclosing function, which its postcondition speaks about", c.Tags)
+				continue
+			}
 			ex.errf("%s: ensures %q: %v", ex.unitKey, c.Text, err)
 			continue
 		}
